@@ -66,7 +66,8 @@ def run(F, res, tier):
         f = F.fn("ide::def::search::FindUsages::" + n)
         fs = [F.fns[x] for x in F.with_helpers(f.path, depth=1, stop=[SEM])]
         calls = [callee(t) for ff in fs for b, t in ff.calls()]
-        eq = any((callee_def(t) or "").endswith("PartialEq::eq") or (callee(t) or "").endswith("PartialEq>::eq") for ff in fs for b, t in ff.calls())
+        eq = any((callee_def(t) or "").endswith(("PartialEq::eq", "PartialEq::ne")) or (callee(t) or "").endswith(("PartialEq>::eq", "PartialEq>::ne"))
+                 for ff in fs for b, t in ff.calls())
         res.ob("R1", "search/" + n, "FindUsages::%s keeps a candidate only if classify_node(candidate) equals the searched definition" % n,
                CLASSIFY in calls and eq, where=f.loc(), how="classify_node: %s, equality test: %s" % (CLASSIFY in calls, eq))
     private = [p for p in F.fns if p.startswith(SEM + "classify_") and p != CLASSIFY and F.fns[p].kind == "Fn"]
